@@ -249,6 +249,7 @@ pub fn family_nth(fam: &str, k: usize, a: usize, i: usize) -> (String, Program) 
     match fam {
         "loop" => inkgen::loop_nth(k, a, i),
         "stitch" => inkgen::stitch_nth(k, a, i),
+        "shape" => inkgen::shape_nth(k, i),
         _ => inkgen::seg_nth(k, a, i),
     }
 }
@@ -264,10 +265,10 @@ pub fn run(tier: Tier) -> i32 {
     }
     let a = inkgen::ITEM_NAMES.len();
     let (fams, depth, secs): (Vec<(&str, usize)>, usize, u64) = match tier {
-        Tier::Quick => (vec![("seg", 1), ("seg", 2), ("loop", 1), ("loop", 2), ("stitch", 1)], 4, 55),
-        Tier::Thorough => (vec![("seg", 1), ("seg", 2), ("seg", 3), ("loop", 1), ("loop", 2), ("stitch", 1), ("stitch", 2)], 5, 2400),
+        Tier::Quick => (vec![("seg", 1), ("seg", 2), ("loop", 1), ("loop", 2), ("stitch", 1), ("shape", 1), ("shape", 2)], 4, 55),
+        Tier::Thorough => (vec![("seg", 1), ("seg", 2), ("seg", 3), ("loop", 1), ("loop", 2), ("stitch", 1), ("stitch", 2), ("shape", 1), ("shape", 2)], 5, 2400),
     };
-    let counts: Vec<usize> = fams.iter().map(|(_, k)| inkgen::seg_count(*k, a)).collect();
+    let counts: Vec<usize> = fams.iter().map(|(f, k)| if *f == "shape" { inkgen::shape_count(*k) } else { inkgen::seg_count(*k, a) }).collect();
     let n: usize = counts.iter().sum();
     let locate = |mut i: usize| -> (&str, usize, usize) {
         for (fi, c) in counts.iter().enumerate() {
